@@ -255,6 +255,9 @@ def nanmean(group_idx, array, *, axis=-1, size=None, fill_value=None, dtype=None
 
 
 def ffill(group_idx, array, *, axis, **kwargs):
+    if array.shape[axis] == 0:
+        # nothing to fill (a zero-length chunk)
+        return array
     group_idx, array, perm = _prepare_for_flox(group_idx, array)
     shape = array.shape
     ndim = array.ndim
